@@ -37,7 +37,7 @@ impl Prop for P {
         }
     }
     fn cases(tier: Tier) -> u64 {
-        tier.pick(100_000, 1_000_000)
+        tier.pick(100_000, 500_000)
     }
     fn fixed_cases(tier: Tier) -> Vec<Case> {
         // boundary sweep of the 64 KiB LZ code buffer in the lazy (normal) path: the buffer is filled with
